@@ -140,6 +140,9 @@ type run struct {
 	// the evidence class "reply written later than WriteTimeout after the Shutdown call" only - no
 	// verdict depends on it
 	sdCallAt [2]atomic.Int64
+	// strict (probes only): the oracle does not consult the list of known findings (a probe runs while
+	// that list is being evaluated)
+	strict bool
 }
 
 // shared: state of one execution that both runs of the Server value (and the server's callbacks,
@@ -402,6 +405,7 @@ func (s *spyReader) ReadTCP(conn net.Conn, timeout time.Duration) ([]byte, error
 	s.r.log.Pointf("reader.enter(%s,%d)", j, s.q)
 	m, err := s.Reader.ReadTCP(conn, timeout)
 	s.r.log.Pointf("reader.return(%s,%d,%s)", j, s.q, retTag(err))
+	s.handover(m, err)
 	return m, err
 }
 
@@ -410,6 +414,7 @@ func (s *spyReader) ReadUDP(conn *net.UDPConn, timeout time.Duration) ([]byte, *
 	s.r.log.Pointf("reader.enter(pc,%d)", s.q)
 	m, sess, err := s.Reader.ReadUDP(conn, timeout)
 	s.r.log.Pointf("reader.return(pc,%d,%s)", s.q, retTag(err))
+	s.handover(m, err)
 	return m, sess, err
 }
 
@@ -418,7 +423,19 @@ func (s *spyReader) ReadPacketConn(conn net.PacketConn, timeout time.Duration) (
 	s.r.log.Pointf("reader.enter(pc,%d)", s.q)
 	m, a, err := s.Reader.(dns.PacketConnReader).ReadPacketConn(conn, timeout)
 	s.r.log.Pointf("reader.return(pc,%d,%s)", s.q, retTag(err))
+	s.handover(m, err)
 	return m, a, err
+}
+
+// handover logs reader.handover(j,q): the Reader is about to hand request (j,q) - identified by the
+// message id, as everywhere - to the serve loop. It is logged after the interposition point
+// reader.return, i.e. after whatever time the (decorated) Reader took once the octets were read:
+// from here on the serve loop has the request, not before.
+func (s *spyReader) handover(m []byte, err error) {
+	if err == nil && len(m) >= 2 {
+		id := int(m[0])<<8 | int(m[1])
+		s.r.log.Addf("reader.handover(%d,%d)", id/16, id%16)
+	}
 }
 
 type spyWriter struct {
@@ -835,6 +852,14 @@ func runScenarioOpt(s Scenario, sdcWatch time.Duration) ([]string, error) {
 	return r.classes(), err
 }
 
+// probeScenario runs the fixed case of a probe: the oracle is the same, but it does not look at the
+// list of known findings (pbt.Known must not be called while that list is being evaluated).
+func probeScenario(s Scenario, sdcWatch time.Duration) error {
+	r := &run{s: s, nonce: newNonce(), log: memnet.NewLog(), addr2idx: map[string]string{}, results: map[string]error{}, resultSet: map[string]bool{}, phase: 1, sh: &shared{addrs: map[string]string{}}, sdcWatch: sdcWatch, strict: true}
+	r.log.SetPlan(s.Waits)
+	return r.execute()
+}
+
 func checkScenario(s Scenario) error {
 	key, _ := json.Marshal(s)
 	if wedged.Load() {
@@ -846,7 +871,7 @@ func checkScenario(s Scenario) error {
 	classes, err := runScenario(s)
 	nontrivial := false
 	for _, c := range classes {
-		if c == "sd-while-handler-running" || c == "sd-while-conn-unread" || strings.HasPrefix(c, "misuse=") {
+		if c == "sd-while-handler-running" || c == "sd-while-conn-unread" || strings.HasPrefix(c, "misuse=") || c == "fatal:serve-loop-ended-before-shutdown-call" {
 			nontrivial = true
 		}
 	}
@@ -908,6 +933,12 @@ func (r *run) execute() (err error) {
 				r.injectFault("tempNotTimeout")
 			}
 		}()
+	}
+
+	// --- a fatal fault of the accept / read step while the server is running (round 10)
+	if s.fatal() {
+		r.wg.Add(1)
+		go r.fatalFault()
 	}
 
 	// --- start
@@ -1236,7 +1267,23 @@ func (r *run) invariants() error {
 			return r.fail("I5: two Shutdown calls returned %v and %v; exactly one of them must report 'server not started'", sdErr, e2)
 		}
 	} else if isNotStarted(sdErr) {
-		return r.fail("I4: Shutdown of a started server returned %v", sdErr)
+		if !r.fatalConsumed() {
+			return r.fail("I4: Shutdown of a started server returned %v", sdErr)
+		}
+		// The serve loop of this run had ended on its own, with a fatal error of its listener / socket.
+		// Whether the server then still counts as started is not for the statement to say - but the
+		// handlers of the run have been started, and a Shutdown call returns only after they have
+		// returned, whatever it answers.
+		for i, n := range names {
+			var j, q int
+			if !scan(n, "handler.enter(%d,%d)", &j, &q) || j >= restartBase || i > effRet {
+				continue
+			}
+			if x := idx(fmt.Sprintf("handler.exit(%d,%d)", j, q)); x < 0 || x > effRet {
+				return r.fail("I1: Shutdown returned (%v) while handler (%d,%d), which had been started, was still running - the serve loop had ended with a fatal error of its %s and was waiting for that handler itself", sdErr, j, q, map[bool]string{true: "socket", false: "listener"}[r.pc != nil])
+			}
+		}
+		effErr = nil // the run was over when Shutdown was called: nothing more to judge about that call
 	}
 	// I4 Shutdown result
 	ctxGaveUp := false
@@ -1256,9 +1303,22 @@ func (r *run) invariants() error {
 	}
 	if idx("serve.return(nil)") < 0 {
 		if i := idx("serve.return(*)"); i >= 0 {
-			return r.fail("I4: the serve call returned %v, want nil", names[i])
+			if !(r.fatalConsumed() && names[i] == r.fatalServeTag()) {
+				return r.fail("I4: the serve call returned %v, want nil", names[i])
+			}
+			// the serve loop ended with the injected fatal error and says so - but only once the
+			// handlers of its run have returned ("no goroutine of the server remains")
+			for k, n := range names {
+				var j, q int
+				if scan(n, "handler.enter(%d,%d)", &j, &q) && j < restartBase && k < i {
+					if x := idx(fmt.Sprintf("handler.exit(%d,%d)", j, q)); x < 0 || x > i {
+						return r.fail("I4/I6: the serve call returned (%s) while handler (%d,%d) of its run was still running", names[i], j, q)
+					}
+				}
+			}
+		} else {
+			return r.fail("I4: the serve call has not returned")
 		}
-		return r.fail("I4: the serve call has not returned")
 	}
 	// I5 second start
 	if set["secondStart"] && !isAlreadyStarted(res["secondStart"]) {
@@ -1279,6 +1339,17 @@ func (r *run) invariants() error {
 			// have been given the port the old one has just released.)
 			if snd := idx(fmt.Sprintf("client(%d).sending(%d)", j, q)); snd > effRet && effRet >= 0 && j < restartBase && r.child == nil {
 				return r.fail("I3: the request of handler (%d,%d) was sent only after Shutdown had returned (%v), yet it was read and its handler was started", j, q, effErr)
+			}
+			// ... and (round 10) a request that the server's Reader handed to the serve loop only after
+			// that Shutdown had returned: the loop got it from a server that has been shut down - the
+			// caller has been told so - and "no handler is started after Shutdown has returned" does not
+			// depend on whether Shutdown had waited for the handlers that were running
+			if ho := idx(fmt.Sprintf("reader.handover(%d,%d)", j, q)); ho > effRet && effRet >= 0 && j < restartBase && r.child == nil {
+				if !r.strict && pbt.Known(knownLateHandover) {
+					pbt.Excluded(knownLateHandover)
+					continue
+				}
+				return r.fail("I3: handler (%d,%d) was started after Shutdown had returned (%v): the server's Reader handed that request to the serve loop only after the return of Shutdown (it was still busy with it when the context expired), and the loop passed it on to a handler all the same", j, q, effErr)
 			}
 			continue
 		}
@@ -2170,6 +2241,7 @@ func (r *run) classes() []string {
 		trig = trig[:i]
 	}
 	cl = append(cl, "trigger="+trig)
+	cl = append(cl, r.fatalClasses(names, call)...)
 	hasFallback, infeasible, late, gaveUp := false, false, false, false
 	for i, n := range names {
 		switch {
@@ -2204,6 +2276,20 @@ func (r *run) classes() []string {
 	}
 	if gaveUp {
 		cl = append(cl, "shutdown-gave-up-on-ctx")
+		ret := -1
+		for i, n := range names {
+			if strings.HasPrefix(n, "shutdown.return(") {
+				ret = i
+				break
+			}
+		}
+		for i, n := range names {
+			var j, q int
+			if ret >= 0 && i > ret && scan(n, "reader.handover(%d,%d)", &j, &q) && j < restartBase {
+				cl = append(cl, "gave-up:reader-hands-request-over-after-shutdown-returned")
+				break
+			}
+		}
 	}
 	// the second run
 	at2, call2 := -1, -1
